@@ -16,10 +16,20 @@ PROP = dict(
                 'every hostile table value on small encodings'),
     level_note=('over-reads are observed by ASan redzones on exact-size '
                 'copies (plus result-independence from the bits / bytes that '
-                'follow the declared input); trusts the harness-side layout '
-                'walkers (tagged lengths, Elias code lengths, RLE run '
-                'offsets from harness/vf_ref.c) and the library encoders used '
-                'to obtain valid encodings; not exhaustive'),
+                'follow the declared input). Expectations about decoded '
+                'content exist only for bytes written by the library\'s own '
+                'encoder (and their prefixes) and are judged through public '
+                'APIs: element comparison with the input array, bitmap '
+                'cardinality + iteration against the source set, '
+                'varintElias*Bits / varintRLEDecodeRun / the encoders\' meta for '
+                'code and run boundaries, varintBitWriter for the bit order; '
+                'no wire layout of an array codec or of the bitmap '
+                'serialisation and no container type is assumed by an oracle '
+                '(layout knowledge only steers the hostile-input generator; '
+                'the tagged scalar format of C04 is the exception). Raw, '
+                'mutated and hostile inputs are arbitrary bytes: only crash / '
+                'over-read / over-write / allocation-size / termination '
+                'oracles apply. Not exhaustive'),
     rule=('case = (entry point, capacity selector, mode) + raw bytes, or an '
           'array descriptor encoded by the library and then truncated / '
           'mutated / given a hostile header field; non-trivial = a truncated, '
@@ -39,8 +49,8 @@ PROP = dict(
         'hostile.dict.dictSize', 'hostile.dict.count', 'hostile.elias.zeroflood',
         'hostile.elias.hugelength', 'hostile.bitmap.type',
         'hostile.bitmap.cardinality', 'hostile.bitmap.numRuns',
-        'hostile.rle.len0', 'bitmap.valid.array', 'bitmap.valid.bitmap',
-        'bitmap.valid.runs', 'cap.zero', 'cap.below', 'cap.exact', 'cap.above',
+        'hostile.rle.len0', 'bitmap.valid.small', 'bitmap.valid.large',
+        'bitmap.valid.range', 'cap.zero', 'cap.below', 'cap.exact', 'cap.above',
         'elias.padbits.checked',
     ],
     assumptions=COMMON_ASSUME + [
@@ -53,7 +63,10 @@ PROP = dict(
         'a decoder may answer a hostile input with NULL / 0 / a short count; '
         'only crashes, out-of-bounds accesses, single allocation requests '
         'above 8 MiB + 64*len, results that depend on data outside the '
-        'declared input and wrong values on prefixes of valid encodings are '
-        'violations',
+        'declared input and wrong values on (prefixes of) encodings written '
+        'by the library\'s own encoder are violations; a hand-built or '
+        'modified byte string is never treated as a valid encoding',
+        'a shortened bitmap encoding that is accepted all the same must give '
+        'a subset of the encoded set (the "short result" of the statement)',
     ],
 )
